@@ -17,10 +17,10 @@ from ..refs import sdof_ref as ref
 CASE_TIMEOUT = 600
 LO, HI = 0.2, 2e4
 
-Q_DT = (0.005, 0.01, 1.0)
+Q_DT = (1e-9, 0.005, 0.01, 1.0)
 Q_RATIO = (0.2, 0.5, 1, 2, 5.9, 6, 10, 20, 100, 1000, 2000, 5000, 2e4)
 Q_XI = (0.0, 0.01, 0.05, 0.2, 0.5, 0.9, 0.99)
-T_DT = (0.005, 0.01, 0.02, 0.25, 1.0)
+T_DT = (1e-9, 0.005, 0.01, 0.02, 0.25, 1.0)
 T_RATIO = (0.2, 0.21, 0.5, 1, 2, 3, 5.9, 6, 10, 20, 50, 100, 1000, 2000, 5000, 1e4, 1.5e4, 2e4)
 T_XI = (0.0, 1e-4, 0.01, 0.05, 0.2, 0.5, 0.9, 0.99, 0.999)
 
@@ -63,7 +63,7 @@ def build(tier, seed):
         'bounds': {'alphabet': [-1, 0, 1], 'max_len': L, 'dt': dts, 'T_over_dt': Q_RATIO if quick else T_RATIO,
                    'xi': Q_XI if quick else T_XI, 'long_families': fams},
         'required_classes': ['T<6dt', 'T>=6dt', 'T<dt', 'xi=0', 'xi>=0.9', 'leading-zero', 'multi-period', 'long-family',
-                             'entry:response_series', 'entry:nigam', 'entry:object', 'entry:object-defaults'],
+                             'entry:response_series', 'entry:nigam', 'entry:object', 'entry:object-reused', 'entry:object-defaults'],
         'assumptions': ['oracle: 40-digit closed-form per-step solution (mpmath), witnessed by a longdouble evaluation and by the ODE residual',
                         'dt, T/dt and xi only on the finite menus; record values in {-1,0,1}',
                         'errors are normalised by the peak of the exact series; where that fails, by the peak of the exact continuous-time '
@@ -71,12 +71,17 @@ def build(tier, seed):
     }
 
 
-def entry_points(rec, dt, periods, xi):
+def entry_points(rec, dt, periods, xi, shared):
     a = np.array(rec, dtype=float)
     p = np.array(periods, dtype=float)
     yield 'response_series', lambda: sdof.response_series(a, dt, p, xi)
     yield 'nigam', lambda: sdof.nigam_and_jennings_response(list(rec), dt, list(periods), xi)
     yield 'object', lambda: eqsig.AccSignal(a, dt).response_series(response_times=p, xi=xi)
+    # one long-lived object per (record, dt): every (periods, xi) request of the case goes through the same AccSignal, so
+    # a result that depends on an earlier request on that object (memoised series, sticky damping or periods) shows up
+    if 'asig' not in shared:
+        shared['asig'] = eqsig.AccSignal(a, dt)
+    yield 'object-reused', lambda: shared['asig'].response_series(response_times=p, xi=xi)
     if xi == 0.05:
         # the object's defaults: periods given at construction, damping left at its documented default of 5 %
         yield 'object-defaults', lambda: eqsig.AccSignal(a, dt, response_times=p).response_series()
@@ -103,6 +108,7 @@ def run_case(case):
     recf = np.array(rec, dtype=float)
     amax = float(np.max(np.abs(recf)))
     nontriv = False
+    shared = {}
     for ratio in ratios:
         T = float(ratio * dt)
         r.cls('T<dt' if ratio < 1 else ('T<6dt' if ratio < 6 else 'T>=6dt'))
@@ -129,7 +135,7 @@ def run_case(case):
                     exact[j] = (U, V, ref.to_float(U), ref.to_float(V))
                     if any(x != 0 for x in U):
                         nontriv = True
-                for ename, fn in entry_points(rec, dt, periods, xi):
+                for ename, fn in entry_points(rec, dt, periods, xi, shared):
                     r.cls('entry:' + ename)
                     r.states += 1
                     sub = {'rec': rid, 'dt': dt, 'T/dt': ratio, 'xi': xi, 'shape': shape, 'entry': ename}
